@@ -208,48 +208,79 @@ def work(specs, tier, open_ids):
     return part.dump()
 
 
+def rename_cells(s, suffix="_n"):
+    """the same block layout with every cell (row-record column) renamed"""
+    ctk = s["control_table_keys"]
+    return {"control": {k: (list(v) if k in ctk else [x + suffix for x in v]) for k, v in s["control"].items()}, "record_keys": list(s["record_keys"]), "control_table_keys": list(ctk)}
+
+
+def compositions(s1, s2):
+    """all composable (a then b) shapes over two specifications with equal record keys and cell names;
+    a map is (blocks_in, blocks_out) with None for the row form"""
+    return [
+        ("blocks->rows ; rows->blocks", (s1, None), (None, s2)),
+        ("rows->blocks ; blocks->rows (inverse)", (None, s1), (s1, None)),
+        ("rows->blocks ; blocks->rows (renaming cells)", (None, s1), (rename_cells(s1), None)),
+        ("rows->blocks ; blocks->blocks", (None, s1), (s1, s2)),
+        ("blocks->blocks ; blocks->rows", (s1, s2), (s2, None)),
+        ("blocks->blocks ; blocks->blocks", (s1, s2), (s2, s1)),
+        ("blocks->rows ; rows->blocks (renamed cells)", (s1, None), (None, s2)),
+    ][:6]
+
+
 def compose_work(pairs, tier, open_ids):
-    """pairs: (spec1, spec2) with equal record keys and equal cell sets; a: blocks(spec1)->rows, b: rows->blocks(spec2)"""
+    """pairs: (spec1, spec2) with equal record keys and equal cell sets"""
     part = core.Part(open_ids)
-    max_records = 2 if tier == "quick" else 3
+    max_records = 1 if tier == "quick" else 2
     for s1, s2 in pairs:
-        a = mk_map(s1, None)  # blocks -> rows
-        b = mk_map(None, s2)  # rows -> blocks
-        a0 = mk_map(None, s1)  # rows -> blocks(s1), to make inputs for a
-        forms = {}
-        try:
-            forms["rshift"] = a >> b
-        except Exception as e:
-            part.violation({"spec_a": s1, "spec_b": s2, "error": repr(e)[:200]}, f"a >> b raises for two maps with matching record keys: {type(e).__name__}: {e}")
-        try:
-            forms["compose"] = b.compose(a)
-        except Exception as e:
-            part.violation({"spec_a": s1, "spec_b": s2, "error": repr(e)[:200]}, f"b.compose(a) raises for two maps with matching record keys: {type(e).__name__}: {e}")
-        part.count("composed_pairs")
-        # also rows -> blocks(s1) -> rows (the composite of a map and its inverse may be None = identity)
-        for t in row_tables(s1, max_records):
-            x = transform(a0, t, "pandas")
-            if x[0] != "ok":
-                continue
-            xt = as_table(x, block_types(s1))
-            step1 = transform(a, xt, "pandas")
-            if step1[0] != "ok":
-                continue
-            seq = transform(b, as_table(step1, row_types(s1)), "pandas")
-            part.count("traces_validated_against_impl")
-            for fname, f in forms.items():
-                if f is None:
-                    got = ("ok", xt["columns"], xt["rows"])
+        for shape, (a_in, a_out), (b_in, b_out) in compositions(s1, s2):
+            a = mk_map(a_in, a_out)
+            b = mk_map(b_in, b_out)
+            case0 = {"shape": shape, "spec_a": [a_in, a_out], "spec_b": [b_in, b_out]}
+            forms = {}
+            refused = False
+            for fname, f in (("rshift", lambda: a >> b), ("compose", lambda: b.compose(a))):
+                try:
+                    forms[fname] = f()
+                except ValueError as e:
+                    if "renaming" in shape and "only renames columns" in str(e):
+                        # a pure column renaming is not representable as a record map: refusing is not a wrong result
+                        part.count("compositions_refused_pure_renaming")
+                        refused = True
+                    else:
+                        part.violation(dict(case0, form=fname, error=repr(e)[:200]), f"{fname} raises for two composable maps ({shape}): {type(e).__name__}: {e}")
+                except Exception as e:
+                    part.violation(dict(case0, form=fname, error=repr(e)[:200]), f"{fname} raises for two composable maps ({shape}): {type(e).__name__}: {e}")
+            part.count("composed_pairs")
+            # inputs of a: row tables over its cells, or their block form
+            src = a_out if a_in is None else a_in
+            for t in row_tables(src, max_records):
+                if a_in is None:
+                    xt = t
                 else:
-                    got = transform(f, xt, "pandas")
-                part.count("compositions_checked")
-                part.outcome((fname, got[0], len(got[2]) if got[0] == "ok" else -1))
-                if seq[0] != "ok" or got[0] != "ok" or not compare.EQ(got, seq):
-                    part.violation(
-                        {"spec_a": s1, "spec_b": s2, "form": fname, "input_blocks": xt, "sequential": compare.brief(seq, 12), "composed": compare.brief(got, 12)},
-                        f"{fname}: the composed record map differs from applying the two maps one after the other",
-                    )
-                    break
+                    x = transform(mk_map(None, a_in), t, "pandas")
+                    if x[0] != "ok":
+                        continue
+                    xt = as_table(x, block_types(a_in))
+                step1 = transform(a, xt, "pandas")
+                if step1[0] != "ok":
+                    continue
+                mid_types = row_types(a_in) if a_out is None else block_types(a_out)
+                seq = transform(b, as_table(step1, mid_types), "pandas")
+                part.count("traces_validated_against_impl")
+                for fname, f in forms.items():
+                    if f is None:
+                        got = ("ok", xt["columns"], xt["rows"])
+                    else:
+                        got = transform(f, xt, "pandas")
+                    part.count("compositions_checked")
+                    part.outcome((shape, fname, got[0], len(got[2]) if got[0] == "ok" else -1))
+                    if seq[0] != "ok" or got[0] != "ok" or not compare.EQ(got, seq):
+                        part.violation(
+                            dict(case0, form=fname, input=xt, sequential=compare.brief(seq, 12), composed=(compare.brief(got, 12) if f is not None else "None (identity)")),
+                            f"{fname}: the composed record map differs from applying the two maps one after the other ({shape})",
+                        )
+                        break
     return part.dump()
 
 
@@ -271,11 +302,12 @@ def run(tier):
     run.assumptions += [
         "record specifications: strict, 1-2 control-table key columns, 2-3 block rows, 1-2 value columns, record keys [], [g] or [g, h], cell names distinct; data: complete blocks, <= 2 (3) records, cell values following the patterns all-null / constant / all-distinct / one-null",
         "row order of a transform's result is not compared",
-        "composable pairs: blocks(spec a) -> rows followed by rows -> blocks(spec b) over the same record keys and the same cell names",
+        "composable pairs over two specifications with the same record keys and cell names, in every shape: blocks->rows;rows->blocks, rows->blocks;blocks->rows (inverse and cell-renaming), rows->blocks;blocks->blocks, blocks->blocks;blocks->rows, blocks->blocks;blocks->blocks",
+        "a composite that only renames columns is not representable as a record map; a ValueError saying so is accepted and counted",
     ]
     return run.finish(
         exhaustive=True,
-        rule=f"{len(L)} record specifications x all record-keyed tables with <= {2 if tier == 'quick' else 3} records over 4 cell-value patterns, both directions, Pandas and Polars; {len(pairs)} composable pairs of maps x the same tables",
+        rule=f"{len(L)} record specifications x all record-keyed tables with <= {2 if tier == 'quick' else 3} records over 4 cell-value patterns, both directions, Pandas and Polars; {len(pairs)} pairs of specifications x 6 composition shapes x tables with <= {1 if tier == 'quick' else 2} records",
     )
 
 
@@ -285,7 +317,10 @@ def replay(doc):
     if "spec" in c:
         d = work([c["spec"]], "thorough", [])
     else:
-        d = compose_work([(c["spec_a"], c["spec_b"])], "thorough", [])
+        sa, sb = c["spec_a"], c["spec_b"]
+        s1 = sa[0] or sa[1]
+        s2 = sb[1] or sb[0]
+        d = compose_work([(s1, s2)], "thorough", [])
     for v in d["violations"][:5]:
         print(v["what"])
     return 1 if d["violations"] else 0
